@@ -40,7 +40,7 @@ ASSUMPTIONS = [
 def C(name, props, **kw):
     d = dict(name=name, props=set(props.split()), targets=[b'a', b'b'], flavour='redo', keep_going=False, top_level=2, pipe0=1,
              others0=0, prior=None, other_locks=None, sub_target=None, shuffle=False, no_do=(), select_budget=0, race=(), deps=(),
-             free_at_try=None, cycles=(), foreign_parent=False, history=(), declares=None, default_do=False)
+             free_at_try=None, cycles=(), foreign_parent=False, history=(), declares=None, default_do=False, scripts=None)
     d.update(kw)
     return d
 
@@ -126,6 +126,13 @@ def configs(thorough):
                    dict(name='f created', mutate='create:f', expect=['a'], result=None)], **I),
         C('history: ifchange a (declares redo-always); two more runs', 'C14', targets=[b'a'], declares={(97,): ('always',)},
           history=[dict(name='a new run, nothing changed', expect=['a']), dict(name='another run', expect=['a'])], **I),
+        # nested: a.do runs `redo-ifchange b`, executed with the real code as a sub-redo when a's script is seen to exit
+        C('history: ifchange a (a.do: redo-ifchange b; b.do: redo-ifchange src); again; src edited; again', 'C01 C02', targets=[b'a'],
+          prior=SRC, scripts={b'a': [('ifchange', [b'b'])]}, declares={(98,): b'src'},
+          history=[dict(name='nothing changed', expect=[]), dict(name='source of b edited', mutate='touch:src', expect=['a', 'b']),
+                   dict(name='nothing changed', expect=[])], **I),
+        C('history: ifchange a (a.do: redo-ifchange b); b removed', 'C01', targets=[b'a'], scripts={b'a': [('ifchange', [b'b'])]},
+          history=[dict(name='inner target removed', mutate='remove:b', expect=['a', 'b'])], **I),
         C('history: ifchange a; a edited by hand; a removed', 'C02', targets=[b'a'],
           history=[dict(name='target edited by hand', mutate='touch:a', expect=[], content={'a': 'edited-by-user'}),
                    dict(name='edited target removed', mutate='remove:a', expect=['a'])], **I),
@@ -240,7 +247,7 @@ def explore(chk, pid, scn=None):
         if only and only != 'sched' and only not in cfg['name']:
             continue
         run_config(chk, pid, cfg)
-    if pid in ('C02', 'C14') and scn is not None and not chk.candidates:
+    if pid in ('C01', 'C02', 'C14') and scn is not None and not chk.candidates:
         # model validation: the histories' expectations (which scripts run after which user action) against the compiled binaries
         for cfg in CFGS:
             if not cfg['history'] or any(s_.get('only_after_failure') for s_ in cfg['history']):
@@ -269,7 +276,7 @@ def run_config(chk, pid, cfg):
                                          pipe0=cfg['pipe0'], others0=cfg['others0'], runid=R, should_build=sb, max_wakeups=12,
                                          prior=cfg['prior'], other_locks=cfg['other_locks'], sub_target=cfg['sub_target'],
                                          shuffle=cfg['shuffle'], no_do=cfg['no_do'], race=cfg['race'], deps=cfg['deps'],
-                                         free_at_try=cfg['free_at_try'], cycles=cfg['cycles'], default_do=cfg['default_do'])
+                                         free_at_try=cfg['free_at_try'], cycles=cfg['cycles'], default_do=cfg['default_do'], scripts=cfg['scripts'])
         w.select_budget = cfg['select_budget']
         w.script_declares = cfg['declares']
         st.update(w=w, hang=None, res=None, r2=None, phase='run', runs=[])
@@ -322,7 +329,7 @@ def run_config(chk, pid, cfg):
                'other_locks': {k.decode('latin-1'): v for k, v in (cfg['other_locks'] or {}).items()},
                'variant': 'locked' if cfg['other_locks'] else ('unlocked-job' if cfg['deps'] else (
                    'nojob' if (cfg['no_do'] or cfg['prior']) else 'plain'))}
-        if pid not in ('C12', 'C02', 'C13', 'C14'):
+        if pid not in ('C12', 'C01', 'C02', 'C13', 'C14'):
             chk.goal('sched: two jobs run at the same time', w.max_running >= 2)
             chk.goal('sched: a job fails', any(v == 'fail' for v in F['status_by_target'].values()))
             chk.goal('sched: run() returns Ok', outcome == 'ok' and val[0] is not None and val[0].var == 'Ok')
@@ -773,7 +780,7 @@ def F0_status(eng, w, cfg, runs):
     return facts(eng, w, cfg, 0, hi)['status_by_target']
 
 
-JUDGES = {'C02': judge_history, 'C13': judge_history, 'C14': judge_history, 'C12': judge_c12, 'C05': judge_c05, 'C06': judge_c06, 'C07': judge_c07, 'C08': judge_c08, 'C09': judge_c09}
+JUDGES = {'C01': judge_history, 'C02': judge_history, 'C13': judge_history, 'C14': judge_history, 'C12': judge_c12, 'C05': judge_c05, 'C06': judge_c06, 'C07': judge_c07, 'C08': judge_c08, 'C09': judge_c09}
 
 
 TRACE_DO = 'echo %s >> trace\necho out-%s\n'
@@ -878,6 +885,15 @@ def history_replay(scn, c):
     if cfg is None or any(s_.get('only_after_failure') for s_ in cfg['history']):
         return False, 'no replay for this history'
     targets = [t.decode() for t in cfg['targets']]
+    requested = list(targets)
+    nested = {}
+    for tn, ops in (cfg['scripts'] or {}).items():
+        for op in ops:
+            if op[0] == 'ifchange':
+                nested[tn.decode()] = [n.decode() for n in op[1]]
+                for n in op[1]:
+                    if n.decode() not in targets:
+                        targets.append(n.decode())
     body = ('echo @T@ >> trace\nif [ -s decl-@T@ ]; then redo-ifchange $(cat decl-@T@); fi\n'
             'if [ -s declc-@T@ ]; then redo-ifcreate $(cat declc-@T@) || exit 0; fi\nif [ -e always-@T@ ]; then redo-always; fi\necho out-of-@T@\n')
     files = {}
@@ -894,6 +910,9 @@ def history_replay(scn, c):
         out = []
         for t in targets:
             srcname = (d or {}).get(tuple(t.encode()))
+            if t in nested:
+                out.append('printf %%s "%s" > decl-%s' % (' '.join(nested[t]), t))
+                continue
             if isinstance(srcname, tuple):
                 out.append('printf %%s "" > decl-%s' % t)
                 if srcname[0] == 'always':
@@ -905,7 +924,7 @@ def history_replay(scn, c):
             if srcname:
                 out.append('[ -e %s ] || echo "source v1" > %s' % (srcname.decode(), srcname.decode()))
         return '; '.join(out)
-    cmd = 'redo-ifchange ' + ' '.join(targets)
+    cmd = 'redo-ifchange ' + ' '.join(requested)
     lines = [decl_cmds(cfg['declares']), ': > trace', cmd + ' >run0.log 2>&1; echo "STEP 0 rc=$? ran=$(sort trace | tr "\\n" " ")"']
     for k, step in enumerate(cfg['history']):
         for op in ([step['mutate']] if isinstance(step.get('mutate'), str) else (step.get('mutate') or [])):
